@@ -664,6 +664,9 @@ class Program(object):
                 m.imports = {}
                 if k:
                     m._link()
+        self.new_constants = {}    # module -> names folded into their uses
+        if self.relocate and os.environ.get('PSA_NO_INLINE') != '1':
+            self._fold_new_constants()
         self._index()
         self.inlined = {}          # module -> number of expansions
         if self.relocate and os.environ.get('PSA_NO_INLINE') != '1':
@@ -858,6 +861,60 @@ class Program(object):
             walk(fnode.body)
 
         visit_body(m.tree.body, None, None)
+
+    def _fold_new_constants(self):
+        """A module-level name the reference tree does not have, bound once
+        to a literal (or to % / + over literals and other such names), is
+        replaced by its value where it is read: giving a literal a name does
+        not change what the program does with it."""
+        from psa import anchors
+        globs = anchors.load_globals()
+        if not globs:
+            return
+        consts = {}
+        for mn, m in self.modules.items():
+            known = set(globs.get(mn, ()))
+            if mn not in globs:
+                continue
+            bound = {}
+            for st in m.tree.body:
+                for x in ast.walk(st) if not isinstance(
+                        st, (ast.FunctionDef, ast.ClassDef)) else ():
+                    if isinstance(x, ast.Name) and isinstance(
+                            x.ctx, ast.Store):
+                        bound[x.id] = bound.get(x.id, 0) + 1
+            env = {}
+            for st in m.tree.body:
+                if isinstance(st, ast.Assign) and len(st.targets) == 1 and \
+                        isinstance(st.targets[0], ast.Name):
+                    nm = st.targets[0].id
+                    if nm in known or bound.get(nm) != 1:
+                        continue
+                    v = _fold_literal(st.value, env)
+                    if v is not None:
+                        env[nm] = v
+            # names rebound with global / inside functions as globals
+            for n in ast.walk(m.tree):
+                if isinstance(n, ast.Global):
+                    for nm in n.names:
+                        env.pop(nm, None)
+            if env:
+                consts[mn] = env
+        if not consts:
+            return
+        for mn, m in self.modules.items():
+            self._index_imports(m)
+        for mn, m in self.modules.items():
+            own = consts.get(mn, {})
+            foreign = {al: consts[t] for al, t in m.imports.items()
+                       if t in consts and t != mn}
+            if own or foreign:
+                k = _ConstSubst(own, foreign).run(m.tree)
+                if k:
+                    self.new_constants[mn] = k
+                    m._link()
+        for m in self.modules.values():
+            m.imports = {}
 
     def _inline_new_code(self):
         """Expand calls of module-level functions the reference tree does
@@ -1178,6 +1235,102 @@ def src(node):
 # ---------------------------------------------------------------------------
 
 _NOFOLD = object()
+
+
+def _fold_literal(e, env):
+    """AST of the literal an initialiser denotes, or None."""
+    if isinstance(e, ast.Constant) and isinstance(
+            e.value, (str, int, float, bool, bytes)) or (
+                isinstance(e, ast.Constant) and e.value is None):
+        return e
+    if isinstance(e, ast.Name) and e.id in env:
+        return env[e.id]
+    if isinstance(e, ast.Tuple) and isinstance(e.ctx, ast.Load):
+        vs = [_fold_literal(x, env) for x in e.elts]
+        if all(v is not None for v in vs):
+            return ast.Tuple(elts=vs, ctx=ast.Load())
+        return None
+    if isinstance(e, ast.BinOp) and isinstance(e.op, (ast.Add, ast.Mod)):
+        a, b = _fold_literal(e.left, env), _fold_literal(e.right, env)
+        if a is None or b is None:
+            return None
+        try:
+            va, vb = ast.literal_eval(a), ast.literal_eval(b)
+            v = va + vb if isinstance(e.op, ast.Add) else va % vb
+        except Exception:
+            return None
+        if isinstance(v, (str, int, float)):
+            return ast.Constant(value=v)
+        if isinstance(v, tuple):
+            try:
+                return ast.parse(repr(v), mode='eval').body
+            except SyntaxError:
+                return None
+    return None
+
+
+class _ConstSubst(ast.NodeTransformer):
+    def __init__(self, own, foreign):
+        self.own = own
+        self.foreign = foreign
+        self.shadow = [set()]
+        self.count = 0
+
+    def run(self, tree):
+        self.visit(tree)
+        if self.count:
+            ast.fix_missing_locations(tree)
+        return self.count
+
+    def _scope(self, node):
+        names = set()
+        a = node.args
+        for x in a.posonlyargs + a.args + a.kwonlyargs:
+            names.add(x.arg)
+        for x in (a.vararg, a.kwarg):
+            if x is not None:
+                names.add(x.arg)
+        for n in ast.walk(node):
+            if isinstance(n, ast.Name) and isinstance(n.ctx, ast.Store):
+                names.add(n.id)
+        self.shadow.append(self.shadow[-1] | names)
+        self.generic_visit(node)
+        self.shadow.pop()
+        return node
+
+    visit_FunctionDef = visit_AsyncFunctionDef = visit_Lambda = _scope
+
+    def visit_ClassDef(self, node):
+        names = set()
+        for st in node.body:
+            if isinstance(st, ast.Assign):
+                for t in st.targets:
+                    if isinstance(t, ast.Name):
+                        names.add(t.id)
+        # class-level names do not shadow inside methods, only in the body:
+        # approximate by not substituting a name the class body rebinds
+        self.shadow.append(self.shadow[-1] | names)
+        self.generic_visit(node)
+        self.shadow.pop()
+        return node
+
+    def visit_Name(self, node):
+        if isinstance(node.ctx, ast.Load) and node.id in self.own and \
+                node.id not in self.shadow[-1]:
+            self.count += 1
+            return ast.copy_location(_copy.deepcopy(self.own[node.id]), node)
+        return node
+
+    def visit_Attribute(self, node):
+        if isinstance(node.ctx, ast.Load) and isinstance(
+                node.value, ast.Name) and node.value.id in self.foreign \
+                and node.value.id not in self.shadow[-1] and \
+                node.attr in self.foreign[node.value.id]:
+            self.count += 1
+            return ast.copy_location(_copy.deepcopy(
+                self.foreign[node.value.id][node.attr]), node)
+        self.generic_visit(node)
+        return node
 
 
 class ConstEval(object):
